@@ -41,14 +41,35 @@ def norm_sig(p, kind):
 
 
 def limit_relation(p):
-    """(level term, relation of level to limit) from the decision that compares something with the parameter `limit`"""
+    """(level term, relation of level to limit) from the decision that compares something with the parameter `limit` (or,
+    on a path where the limit was found to be None, with the 'unlimited' stand-in sys.maxsize)"""
+    unlimited = any(a == ("isnone", ("param", "limit")) and v is True for a, v in p.decisions)
+
+    def is_limit(t):
+        return t == ("param", "limit") or (unlimited and t and t[0] == "ext" and str(t[1]).endswith("maxsize"))
     for a, v in p.decisions:
         if a[0] == "ord":
-            if a[2] == ("param", "limit"):
+            if is_limit(a[2]):
                 return a[1], v
-            if a[1] == ("param", "limit"):
+            if is_limit(a[1]):
                 return a[2], {"<": ">", ">": "<", "=": "="}[v]
     return None, None
+
+
+def dequeues(p):
+    """events at which a node leaves the work list: list.pop, or an iteration step over a local list that is appended to
+    (and never popped / inserted into) on this path -- Python iterates such a list in the order entries were appended"""
+    pops = [e for e in p.events if e.kind == "local" and e.op == "list.pop"]
+    grown = {e.kw["__var__"].t[1] for e in p.events if e.kind == "local" and e.op in ("list.append", "list.extend", "list.__iadd__")
+             and e.kw.get("__var__") is not None}
+    popped = {e.kw["__var__"].t[1] for e in pops if e.kw.get("__var__") is not None}
+    marks = [e for e in p.events if e.kind == "mark" and e.op == "for-over-list" and e.kw.get("__var__") is not None
+             and e.kw["__var__"].t[1] in grown and e.kw["__var__"].t[1] not in popped]
+    # only marks of a list that grows *after* the step (inside the loop)
+    marks = [m for m in marks if any(e.kind == "local" and e.op in ("list.append", "list.extend", "list.__iadd__") and e.idx > m.idx
+                                     and e.kw.get("__var__") is not None and e.kw["__var__"].t[1] == m.kw["__var__"].t[1]
+                                     for e in p.events)]
+    return sorted(pops + marks, key=lambda e: e.idx)
 
 
 def run(M, rep, tier, only=None):
@@ -57,6 +78,7 @@ def run(M, rep, tier, only=None):
     fctx = Ctx(M, coarse=False)
     fctx.cfg.compose = False
     fctx.cfg.opaque = {}
+    fctx.cfg.loop_marks = True
     R1 = rep.rule("C13.R1", "the section finder and the source finder behave alike", floor=1,
                   technique="comparison of the abstract path sets of the two clones under the tree-kind renaming")
     R2 = rep.rule("C13.R2", "breadth-first queue discipline, level limit and filter application of the tree finders", floor=6,
@@ -89,13 +111,15 @@ def run(M, rep, tier, only=None):
             if not p.normal:
                 bad = (p, "the finder can fail with %s" % p.terminal[1].cls)
                 break
-            pops = [e for e in p.events if e.kind == "local" and e.op == "list.pop"]
+            pops = dequeues(p)
             ins = [e for e in p.events if e.kind == "local" and e.op in ("list.insert", "list.remove")]
             if ins:
                 bad = (p, "the work queue is modified other than at its ends (%s)" % ins[0].op)
                 break
             for e in pops:
                 npop += 1
+                if e.kind == "mark":
+                    continue            # iteration over a list that only grows at its end takes the entries in queue order
                 if e.key is None or not is_const(e.key) or e.key.t[1] != 0:
                     bad = (p, "nodes are taken from the %s of the queue: the search is not breadth-first" % (
                         "tail" if e.key is not None and is_const(e.key) and e.key.t[1] == -1 else "middle"))
@@ -152,6 +176,7 @@ def run(M, rep, tier, only=None):
             f2 = Ctx(M, coarse=False, unroll=2)
             f2.cfg.compose = False
             f2.cfg.opaque = {}
+            f2.cfg.loop_marks = True
             try:
                 paths2 = explore(f2.cfg, f, None, None, 20000)
             except Budget:
@@ -159,7 +184,7 @@ def run(M, rep, tier, only=None):
             for p in paths2:
                 if not p.normal:
                     continue
-                pops = [e for e in p.events if e.kind == "local" and e.op == "list.pop"]
+                pops = dequeues(p)
                 calls = [e for e in p.events if e.kind == "callv"]
                 if len(pops) >= 2 and len(calls) != len(pops):
                     bad = (p, "%d node(s) are dequeued but the filter is applied %d time(s): a node (and the subtree below it) can be "
@@ -175,6 +200,9 @@ def run(M, rep, tier, only=None):
                                    "in breadth-first order")
                 if bad:
                     break
+        if bad is None and npop == 0:
+            raise AnalysisError("C13.R2: the work-list idiom of %s is not one the rule knows (pop(0) from a list, or iteration over a "
+                                "list that is only appended to): breadth-first order cannot be decided on this tree" % key)
         # children of a file/block start at level 1
         lv1 = False
         for p in paths:
